@@ -11,13 +11,17 @@ def run(argv):
     tier = argv[argv.index("--tier") + 1] if "--tier" in argv else "quick"
     meta = json.load(open(os.path.join(d, "meta.json")))
     checks = argv[argv.index("--checks") + 1].split(",") if "--checks" in argv else [meta["property"]]
+    if "--recorded" in argv and os.path.exists(os.path.join(d, "detection.json")):
+        # also every check that an earlier run recorded for this change (changes whose trigger lies in another property's domain)
+        for rec in json.load(open(os.path.join(d, "detection.json"))).values():
+            checks += [c for c in rec if c not in checks]
     seed = os.environ.get("VERIF_SEED", "1")
     wt = "/tmp/seedrun_%s_%d" % (os.path.basename(d), os.getpid())
     subprocess.check_call(["git", "-C", "/repo", "worktree", "add", "--detach", wt, "HEAD"], stdout=subprocess.DEVNULL, stderr=subprocess.DEVNULL)
     results = {}
     try:
         subprocess.check_call(["git", "-C", wt, "apply", os.path.join(d, "patch.diff")])
-        env = dict(os.environ, VERIF_REPO=wt, VERIF_SEED=seed)
+        env = dict(os.environ, VERIF_REPO=wt, VERIF_SEED=seed, VERIF_OUT_ROOT=wt + ".out")
         for pid in checks:
             p = subprocess.run([sys.executable, os.path.join(build.VERIF, "bin", "verif"), "check", pid, "--tier", tier], stdout=subprocess.PIPE, stderr=subprocess.STDOUT, env=env, cwd=build.VERIF)
             txt = p.stdout.decode(errors="replace")
@@ -30,9 +34,7 @@ def run(argv):
         subprocess.call(["git", "-C", "/repo", "worktree", "remove", "--force", wt], stdout=subprocess.DEVNULL, stderr=subprocess.DEVNULL)
         tag = hashlib.sha1(wt.encode()).hexdigest()[:10]
         shutil.rmtree(os.path.join(build.VERIF, "_build", "alt-" + tag), ignore_errors=True)
-    # restore the evidence files of the unchanged tree (the run above rewrote them for the mutant)
-    subprocess.call(["git", "-C", build.VERIF, "checkout", "--", "evidence", "replays"], stdout=subprocess.DEVNULL, stderr=subprocess.DEVNULL)
-    subprocess.call(["git", "-C", build.VERIF, "clean", "-fdq", "replays"], stdout=subprocess.DEVNULL, stderr=subprocess.DEVNULL)
+        shutil.rmtree(wt + ".out", ignore_errors=True)     # evidence, replay files and scratch output of the run against the changed tree
     out = os.path.join(d, "detection.json")
     prev = {}
     if os.path.exists(out):
